@@ -656,6 +656,10 @@ class SymEval:
     def st_For(self, st, frame):
         if self._flag_loop(st, frame):
             return
+        zl = _index_loop_as_zip(st, frame, self)
+        if zl is not None:
+            self.st_For(zl, frame)
+            return
         en = _manual_counter_as_enumerate(st, frame)
         if en is not None:
             f_, after = en
@@ -2103,6 +2107,77 @@ def _counter_while_as_for(st: ast.While, frame):
     f = ast.For(target=ast.Name(id=i, ctx=ast.Store()), iter=ast.Call(func=ast.Name(id="range", ctx=ast.Load()),
                                                                       args=([ast.Constant(value=int(c))] if int(c) != 0 else []) + [t.comparators[0]], keywords=[]),
                 body=body, orelse=[])
+    ast.copy_location(f, st)
+    ast.fix_missing_locations(f)
+    return f
+
+
+def _index_loop_as_zip(st: ast.For, frame=None, ev=None):
+    """`for i in range(min(len(A), len(B), ..)): ... A[i] ... B[i] ...` (i used only to subscript those sequences, which the body does
+    not rebind) is `for a, b, .. in zip(A, B, ..)` - zip stops at the shortest; with one sequence, `for a in A`."""
+    it = st.iter
+    if st.orelse or not (isinstance(st.target, ast.Name) and isinstance(it, ast.Call) and isinstance(it.func, ast.Name) and it.func.id == "range" and len(it.args) == 1 and not it.keywords):
+        return None
+
+    def len_of(c):
+        return c.args[0] if isinstance(c, ast.Call) and isinstance(c.func, ast.Name) and c.func.id == "len" and len(c.args) == 1 and not c.keywords else None
+    a = it.args[0]
+    if isinstance(a, ast.Name) and frame is not None and frame.lookup(a.id) is not None and frame.lookup(a.id)[0] != "const":
+        # the bound computed beforehand (n = min(len(A), len(B)); for i in range(n)): the sequences are those the body subscripts
+        # with i, provided the bound is exactly the shortest of their lengths
+        i_ = st.target.id
+        cands = []
+        for n in [x for s_ in st.body for x in ast.walk(s_)]:
+            if isinstance(n, ast.Subscript) and isinstance(n.ctx, ast.Load) and isinstance(n.slice, ast.Name) and n.slice.id == i_ and isinstance(n.value, (ast.Name, ast.Attribute)) \
+                    and ast.dump(n.value) not in [ast.dump(c) for c in cands]:
+                cands.append(n.value)
+        if not cands or any(isinstance(m, ast.Name) and m.id == a.id and isinstance(m.ctx, ast.Store) for s_ in st.body for m in ast.walk(s_)):
+            return None
+        want = T.mk_min([T.mk_call("len", [ev.eval(c, frame)]) for c in cands]) if len(cands) > 1 else T.mk_call("len", [ev.eval(cands[0], frame)])
+        if frame.lookup(a.id) != want:
+            return None
+        seqs = cands
+    elif len_of(a) is not None:
+        seqs = [len_of(a)]
+    elif isinstance(a, ast.Call) and isinstance(a.func, ast.Name) and a.func.id == "min" and len(a.args) >= 2 and not a.keywords and all(len_of(x) is not None for x in a.args):
+        seqs = [len_of(x) for x in a.args]
+    else:
+        return None
+    if not all(isinstance(x, (ast.Name, ast.Attribute)) for x in seqs):
+        return None
+    i = st.target.id
+    dumps = [ast.dump(x) for x in seqs]
+    if len(set(dumps)) != len(dumps):
+        return None
+    import copy
+    body = copy.deepcopy(st.body)
+    subs = {}
+    for s_ in body:
+        for n in ast.walk(s_):
+            if isinstance(n, ast.Subscript) and isinstance(n.ctx, ast.Load) and isinstance(n.slice, ast.Name) and n.slice.id == i and ast.dump(n.value) in dumps:
+                subs[id(n.slice)] = dumps.index(ast.dump(n.value))
+    if not subs:
+        return None
+    roots = {n.id for x in seqs for n in ast.walk(x) if isinstance(n, ast.Name)}
+    for n in [x for s_ in body for x in ast.walk(s_)]:
+        if isinstance(n, ast.Name) and n.id == i and id(n) not in subs:
+            return None
+        if isinstance(n, ast.Name) and n.id in roots and isinstance(n.ctx, (ast.Store, ast.Del)):
+            return None
+    names = [f"__{i}_item{k}" for k in range(len(seqs))]
+
+    class _R(ast.NodeTransformer):
+        def visit_Subscript(self, n):
+            if id(n.slice) in subs:
+                return ast.copy_location(ast.Name(id=names[subs[id(n.slice)]], ctx=ast.Load()), n)
+            return self.generic_visit(n)
+    new_body = [_R().visit(s_) for s_ in body]
+    if len(seqs) == 1:
+        target, src = ast.Name(id=names[0], ctx=ast.Store()), seqs[0]
+    else:
+        target = ast.Tuple(elts=[ast.Name(id=nm, ctx=ast.Store()) for nm in names], ctx=ast.Store())
+        src = ast.Call(func=ast.Name(id="zip", ctx=ast.Load()), args=list(seqs), keywords=[])
+    f = ast.For(target=target, iter=src, body=new_body, orelse=[])
     ast.copy_location(f, st)
     ast.fix_missing_locations(f)
     return f
